@@ -86,11 +86,11 @@ def _spec_check(cfg="MC_Solver.cfg", max_pts=3):
         json.dump(sc, open(f, "w"))
         if cfg == "MC_Solver.cfg":
             # with the per-action counts (vacuity audit: an action never taken was never checked)
-            acts, st = tlc.action_coverage("MC_Solver", cfg, {"SCENARIO_FILE": f}, timeout=1500)
+            acts, st = tlc.action_coverage("MC_Solver", cfg, {"SCENARIO_FILE": f}, timeout=3600)
             acts = {a: n for a, n in acts.items() if a not in ("Init",) or True}
             st = dict(st, actions_taken=acts, actions_never_taken=sorted(a for a, n in acts.items() if n == 0))
         else:
-            lines, st = tlc.run_tlc("MC_Solver", cfg, {"SCENARIO_FILE": f}, timeout=1500)
+            lines, st = tlc.run_tlc("MC_Solver", cfg, {"SCENARIO_FILE": f}, timeout=3600)
         return st, len(sc)
     finally:
         import shutil
